@@ -459,7 +459,8 @@ def prop_C20(tier, seed, rng):
     return design, fams, ["C20_"], dict(
         rule="scenarios = (a) every scenario of the bounded WatchSet.tla model (3 channels x member/non-member x close times "
              "{0,1,2,4,never} x context end {0,1,2,4,never} x cancel/deadline x settle {0,2} x call time {0,1}) that can return, "
-             "(b) random scenarios with up to 6 channels, larger times, a second Wait on the same set; executed under virtual "
+             "(b) random scenarios with up to 6 channels, larger times, sets filled with Add or through Merge, a second Wait on the "
+             "same set with Add / Merge of another set / Clear in between; executed under virtual "
              "time; non-trivial = some member closes or the context ends during the wait",
         nontrivial=lambda ops: any(c >= 0 for c in ops[0]["closeAt"]) or ops[0]["tc"] >= 0,
         assumptions=["virtual time (testing/synctest); simultaneous events may be served in any order",
